@@ -18,6 +18,7 @@ import (
 type genCfg struct {
 	MaxSteps                                                   int
 	ForkPrefix                                                 bool
+	Mix                                                        func(rt *rapid.T, nm *hx.NodeMachine) hx.NOp // optional: replaces genNodeOp
 	MinSteps                                                   int
 	AllowTruncate                                              bool
 	AllowPrune                                                 bool
@@ -357,4 +358,188 @@ func genPeerOn(rt *rapid.T, nm *hx.NodeMachine, cfg genCfg, parent int) hx.NOp {
 // later specs of the same block can spend / read what earlier ones created.
 func buildForGen(nm *hx.NodeMachine, spec *hx.TxSpec, s *hx.MState) (*pb.Transaction, *hx.PreExecResult) {
 	return nm.BuildOnModel(spec, s)
+}
+
+// genAdvOp draws an adversarial candidate (C02 / C03 / C05): most must be refused, a few are valid
+// unusual encodings; the model decides which.
+func genAdvOp(rt *rapid.T, nm *hx.NodeMachine, cfg genCfg) hx.NOp {
+	m := nm.LM.M
+	s := nm.PoolState()
+	h := m.Blocks[m.Tip].Height
+	base, ok := genTxSpec(rt, nm, s, genCfg{Keys: cfg.Keys, ContractPct: 0}, h, false)
+	if !ok {
+		return hx.NOp{Op: "sync"}
+	}
+	addTo := func(sp *hx.TxSpec, i int, d int64) {
+		a, _ := new(big.Int).SetString(sp.Outs[i].Amount, 10)
+		a.Add(a, big.NewInt(d))
+		if a.Sign() < 0 {
+			a.SetInt64(0)
+		}
+		sp.Outs[i].Amount = a.String()
+	}
+	last := len(base.Outs) - 1
+	switch kind := rapid.IntRange(0, 11).Draw(rt, "advkind"); kind {
+	case 0: // outputs != inputs
+		addTo(&base, rapid.IntRange(0, last).Draw(rt, "which"), int64(rapid.SampledFrom([]int{1, -1, 1000}).Draw(rt, "delta")))
+		return hx.NOp{Op: "tx", Tx: &base, Expect: "unbalanced"}
+	case 1: // the same input twice, outputs balanced against the cited sum
+		base.Ins = append(base.Ins, base.Ins[0])
+		a, _ := new(big.Int).SetString(base.Ins[0].Amount, 10)
+		o, _ := new(big.Int).SetString(base.Outs[last].Amount, 10)
+		base.Outs[last].Amount = o.Add(o, a).String()
+		return hx.NOp{Op: "tx", Tx: &base, Expect: "duplicate-input"}
+	case 2: // input cites a larger amount than the output has
+		a, _ := new(big.Int).SetString(base.Ins[0].Amount, 10)
+		base.Ins[0].Amount = a.Add(a, big.NewInt(7)).String()
+		addTo(&base, last, 7)
+		return hx.NOp{Op: "tx", Tx: &base, Expect: "wrong-cited-amount"}
+	case 3: // spend a still-frozen output
+		for i := 0; i < 7; i++ {
+			for _, u := range s.UtxosOf(hx.Ring[i].Address) {
+				if u.Frozen == -1 || u.Frozen > h {
+					nm.Seq++
+					sp := hx.TxSpec{From: i, Seq: nm.Seq, Version: 3,
+						Ins:  []hx.InRef{{Addr: i, Txid: hex.EncodeToString(u.Txid), Off: u.Off, Amount: u.Amount.String(), Frozen: u.Frozen}},
+						Outs: []hx.OutSpec{{To: i, Amount: u.Amount.String()}}}
+					return hx.NOp{Op: "tx", Tx: &sp, Expect: "frozen-input"}
+				}
+			}
+		}
+		return hx.NOp{Op: "tx", Tx: &base, Expect: "valid"}
+	case 4: // coinbase flag on a submitted transaction (mints)
+		nm.Seq++
+		sp := hx.TxSpec{From: base.From, Seq: nm.Seq, Version: 3, Coinbase: true, Outs: []hx.OutSpec{{To: base.From, Amount: "777"}}}
+		if rapid.Bool().Draw(rt, "withins") {
+			sp.Ins = base.Ins
+		}
+		return hx.NOp{Op: "tx", Tx: &sp, Expect: "coinbase-flag"}
+	case 5: // non-canonical (leading zero) cited input amount
+		a, _ := new(big.Int).SetString(base.Ins[0].Amount, 10)
+		base.Ins[0].Raw = "00" + hex.EncodeToString(a.Bytes())
+		return hx.NOp{Op: "tx", Tx: &base, Expect: "leading-zero-input-amount"}
+	case 6: // leading-zero output amount: same value, valid
+		a, _ := new(big.Int).SetString(base.Outs[0].Amount, 10)
+		base.Outs[0].Raw = "0000" + hex.EncodeToString(a.Bytes())
+		return hx.NOp{Op: "tx", Tx: &base, Expect: "leading-zero-output-amount(valid)"}
+	case 7: // spend an output that a confirmed or pending transaction already spent
+		var spent []hx.InRef
+		for _, btxs := range [][]*pb.Transaction{nm.Pool, nm.BlockTxs[nm.Ptr]} {
+			for _, t := range btxs {
+				for _, ti := range t.TxInputs {
+					if k := hx.KeyOf(string(ti.FromAddr)); k != nil {
+						spent = append(spent, hx.InRef{Addr: k.Idx, Txid: hex.EncodeToString(ti.RefTxid), Off: ti.RefOffset, Amount: new(big.Int).SetBytes(ti.Amount).String()})
+					}
+				}
+			}
+		}
+		if len(spent) == 0 {
+			return hx.NOp{Op: "tx", Tx: &base, Expect: "valid"}
+		}
+		r := spent[rapid.IntRange(0, len(spent)-1).Draw(rt, "spentref")]
+		nm.Seq++
+		sp := hx.TxSpec{From: r.Addr, Seq: nm.Seq, Version: 3, Ins: []hx.InRef{r}, Outs: []hx.OutSpec{{To: r.Addr, Amount: r.Amount}}}
+		return hx.NOp{Op: "tx", Tx: &sp, Expect: "double-spend"}
+	case 8: // the very same transaction again
+		if len(nm.Pool) > 0 {
+			id := hex.EncodeToString(nm.Pool[rapid.IntRange(0, len(nm.Pool)-1).Draw(rt, "again")].Txid)
+			if sp, ok := nm.Specs[id]; ok {
+				return hx.NOp{Op: "tx", Tx: &sp, Expect: "resubmitted"}
+			}
+		}
+		return hx.NOp{Op: "tx", Tx: &base, Expect: "valid"}
+	case 9, 10: // assembled against the chain state ignoring what is pending (conflict families)
+		at := nm.Ptr
+		spec, ok := genTxSpec(rt, nm, nm.States[at], cfg, h, false)
+		if !ok {
+			return hx.NOp{Op: "tx", Tx: &base, Expect: "valid"}
+		}
+		return hx.NOp{Op: "tx", Tx: &spec, BuildAt: &at, Expect: "built-ignoring-pool"}
+	default: // assembled against an older block's state (stale versions / spent outputs)
+		at := nm.Ptr
+		for k := rapid.IntRange(1, 3).Draw(rt, "back"); k > 0 && m.Blocks[at].Parent >= 0; k-- {
+			at = m.Blocks[at].Parent
+		}
+		spec, ok := genTxSpec(rt, nm, nm.States[at], cfg, h, false)
+		if !ok {
+			return hx.NOp{Op: "tx", Tx: &base, Expect: "valid"}
+		}
+		return hx.NOp{Op: "tx", Tx: &spec, BuildAt: &at, Expect: "built-on-older-state"}
+	}
+}
+
+// genAdvPeer draws an adversarial peer block: wrong award, two coinbases, unknown parent, or a block
+// re-including an already confirmed transaction / conflicting with its own chain (state-invalid).
+func genAdvPeer(rt *rapid.T, nm *hx.NodeMachine, cfg genCfg) hx.NOp {
+	m := nm.LM.M
+	var vs []int
+	for _, b := range m.Blocks {
+		if b.Stored && nm.Valid[b.Idx] {
+			vs = append(vs, b.Idx)
+		}
+	}
+	parent := vs[rapid.IntRange(0, len(vs)-1).Draw(rt, "advparent")]
+	if rapid.Bool().Draw(rt, "ontip") {
+		parent = m.Tip
+		if !nm.Valid[parent] {
+			parent = vs[0]
+		}
+	}
+	op := genPeerOn(rt, nm, cfg, parent)
+	switch rapid.IntRange(0, 4).Draw(rt, "advpeer") {
+	case 0:
+		op.AwardAdd = int64(rapid.SampledFrom([]int{1, -1, 1000000}).Draw(rt, "awardadd"))
+		op.Expect = "bad-award"
+	case 1:
+		op.TwoCB = true
+		op.Expect = "two-coinbase"
+	case 2:
+		op.Parent = -1
+		op.Txs = nil
+		op.Pool = nil
+		op.Expect = "unknown-parent"
+	case 3:
+		// transactions assembled against an older state of the parent's chain: spent outputs and
+		// superseded versions, i.e. a block the ledger stores but the state machine must refuse
+		at := parent
+		for k := rapid.IntRange(1, 3).Draw(rt, "txsback"); k > 0 && m.Blocks[at].Parent >= 0; k-- {
+			at = m.Blocks[at].Parent
+		}
+		if at != parent {
+			op.Txs = nil
+			op.Pool = nil
+			s := nm.States[at].Clone()
+			for i := 0; i < 2; i++ {
+				spec, ok := genTxSpec(rt, nm, s, cfg, 0, false)
+				if !ok {
+					break
+				}
+				if tx, _ := buildForGen(nm, &spec, s); tx != nil {
+					s.Apply(tx, "")
+					op.Txs = append(op.Txs, spec)
+				}
+			}
+			op.TxsAt = &at
+			op.Expect = "txs-built-on-older-state"
+		}
+	default:
+		// re-include a transaction confirmed on the parent's own chain (only on the tip: the ledger
+		// must answer ErrTxDuplicated; on side branches see finding C04-dup-tx-own-branch)
+		if parent != m.Tip {
+			break
+		}
+		var old []string
+		for j := parent; j > 0 && len(old) < 6; j = m.Blocks[j].Parent {
+			for _, t := range nm.BlockTxs[j] {
+				if !t.Coinbase {
+					old = append(old, hex.EncodeToString(t.Txid))
+				}
+			}
+		}
+		if len(old) > 0 {
+			op.Old = []string{old[rapid.IntRange(0, len(old)-1).Draw(rt, "oldtx")]}
+			op.Expect = "re-includes-confirmed-tx"
+		}
+	}
+	return op
 }
